@@ -1,9 +1,11 @@
 use crate::fw::*;
+pub mod c03;
 pub mod c04;
 pub mod c05;
 pub mod c06;
 pub mod c12;
 pub mod c13;
+pub mod c14;
 
 macro_rules! table {
     ($ctx:expr, $rp:expr, $( $id:literal => $m:ident ),* $(,)?) => {
@@ -19,10 +21,12 @@ macro_rules! table {
 
 pub fn dispatch(ctx: &Ctx, replay: Option<&str>) -> i32 {
     table!(ctx, replay,
+        "C03" => c03,
         "C04" => c04,
         "C05" => c05,
         "C06" => c06,
         "C12" => c12,
         "C13" => c13,
+        "C14" => c14,
     )
 }
